@@ -99,6 +99,19 @@ add("C10", "weight indexes the shape vector with the sub-domain index", "nifty/c
 add("C11", "inverse gamma stores alpha instead of alpha+1", OPS + "energy_operators.py", "        self._alphap1 = alpha+1\n", "        self._alphap1 = alpha\n", "R11.6")
 add("C11", "Bernoulli non-event term in the integer dtype", OPS + "energy_operators.py", ".vdot(self._d-1.)", ".vdot(self._d-1)", "R11.7")
 add("C11", "Poisson energy without the sum of the rates", OPS + "energy_operators.py", "        res = x.sum() - x.log().vdot(self._d)", "        res = -x.log().vdot(self._d)", "R11.6")
+add("C19", "JAX KL sums instead of averaging", "nifty/re/optimize_kl.py", "_reduce = partial(tree_map, partial(jnp.mean, axis=0))", "_reduce = partial(tree_map, partial(jnp.sum, axis=0))", "R19.3")
+add("C19", "JAX Hamiltonian prior without the factor 1/2", "nifty/re/optimize_kl.py", "+ 0.5 * vdot(primals, primals)", "+ vdot(primals, primals)", "R19.3")
+add("C19", "JAX KL metric maps the tangents too", "nifty/re/optimize_kl.py", "vmet = map(ham.metric, in_axes=(0, None))", "vmet = map(ham.metric, in_axes=(0, 0))", "R19.3")
+add("C19", "JAX KL evaluated at the bare residuals", "nifty/re/optimize_kl.py", "    s = vvg(primals_samples.at(primals).samples)", "    s = vvg(primals_samples._samples)", "R19.3")
+add("C19", "constant keys: value stripped instead of gradient", "nifty/re/optimize_kl.py", "                remove_axes=(False, insert_axes),", "                remove_axes=(insert_axes, False),", "R19.4")
+add("C19", "constant keys: tangent slot filled with the frozen primals", "nifty/re/optimize_kl.py", "flat_fill=(primals_frozen, zeros_like(primals_frozen)),", "flat_fill=(primals_frozen, primals_frozen),", "R19.4")
+add("C19", "constant keys: minimiser starts from the full position", "nifty/re/optimize_kl.py", "            x0=pl,", "            x0=samples.pos,", "R19.4")
+add("C18", "both white draws use the same sub-key", "nifty/re/evi.py", "    prr_inv_metric_smpl = random_like(key=subkey_prr, primals=p_liquid)", "    prr_inv_metric_smpl = random_like(key=subkey_nll, primals=p_liquid)", "R18.3")
+add("C18", "metric sample without the prior draw", "nifty/re/evi.py", "    smpl = nll_smpl + prr_smpl\n", "    smpl = nll_smpl\n", "R18.3")
+add("C18", "CG metric without the prior identity", "nifty/re/evi.py", "    return lh.metric(p_liquid, tangents, **primals_kw) + tangents\n\n\ndef draw_linear_residual", "    return lh.metric(p_liquid, tangents, **primals_kw)\n\n\ndef draw_linear_residual", "R18.3")
+add("C18", "classic right-hand side drawn from the prior metric twice", "nifty/cl/operators/sampling_enabler.py", "                nj = self._likelihood.draw_sample(device_id=device_id)", "                nj = self._prior.draw_sample(device_id=device_id)", "R18.3")
+add("C18", "classic initial gradient with the wrong sign", "nifty/cl/operators/sampling_enabler.py", "_grad=self._likelihood(s) - nj)", "_grad=self._likelihood(s) + nj)", "R18.3")
+add("C18", "classic prior draw not from the inverse", "nifty/cl/operators/sampling_enabler.py", "s = self._prior.draw_sample(from_inverse=True, device_id=device_id)", "s = self._prior.draw_sample(from_inverse=False, device_id=device_id)", "R18.3")
 VARIANTS = V
 
 add("C18", "mirror flag of another position", "nifty/cl/minimization/sample_list.py", "        return self._m.flexible_addsub(self._r[i], self._n[i])",
@@ -116,6 +129,19 @@ add("C10", "weight indexes the shape vector with the sub-domain index", "nifty/c
 add("C11", "inverse gamma stores alpha instead of alpha+1", OPS + "energy_operators.py", "        self._alphap1 = alpha+1\n", "        self._alphap1 = alpha\n", "R11.6")
 add("C11", "Bernoulli non-event term in the integer dtype", OPS + "energy_operators.py", ".vdot(self._d-1.)", ".vdot(self._d-1)", "R11.7")
 add("C11", "Poisson energy without the sum of the rates", OPS + "energy_operators.py", "        res = x.sum() - x.log().vdot(self._d)", "        res = -x.log().vdot(self._d)", "R11.6")
+add("C19", "JAX KL sums instead of averaging", "nifty/re/optimize_kl.py", "_reduce = partial(tree_map, partial(jnp.mean, axis=0))", "_reduce = partial(tree_map, partial(jnp.sum, axis=0))", "R19.3")
+add("C19", "JAX Hamiltonian prior without the factor 1/2", "nifty/re/optimize_kl.py", "+ 0.5 * vdot(primals, primals)", "+ vdot(primals, primals)", "R19.3")
+add("C19", "JAX KL metric maps the tangents too", "nifty/re/optimize_kl.py", "vmet = map(ham.metric, in_axes=(0, None))", "vmet = map(ham.metric, in_axes=(0, 0))", "R19.3")
+add("C19", "JAX KL evaluated at the bare residuals", "nifty/re/optimize_kl.py", "    s = vvg(primals_samples.at(primals).samples)", "    s = vvg(primals_samples._samples)", "R19.3")
+add("C19", "constant keys: value stripped instead of gradient", "nifty/re/optimize_kl.py", "                remove_axes=(False, insert_axes),", "                remove_axes=(insert_axes, False),", "R19.4")
+add("C19", "constant keys: tangent slot filled with the frozen primals", "nifty/re/optimize_kl.py", "flat_fill=(primals_frozen, zeros_like(primals_frozen)),", "flat_fill=(primals_frozen, primals_frozen),", "R19.4")
+add("C19", "constant keys: minimiser starts from the full position", "nifty/re/optimize_kl.py", "            x0=pl,", "            x0=samples.pos,", "R19.4")
+add("C18", "both white draws use the same sub-key", "nifty/re/evi.py", "    prr_inv_metric_smpl = random_like(key=subkey_prr, primals=p_liquid)", "    prr_inv_metric_smpl = random_like(key=subkey_nll, primals=p_liquid)", "R18.3")
+add("C18", "metric sample without the prior draw", "nifty/re/evi.py", "    smpl = nll_smpl + prr_smpl\n", "    smpl = nll_smpl\n", "R18.3")
+add("C18", "CG metric without the prior identity", "nifty/re/evi.py", "    return lh.metric(p_liquid, tangents, **primals_kw) + tangents\n\n\ndef draw_linear_residual", "    return lh.metric(p_liquid, tangents, **primals_kw)\n\n\ndef draw_linear_residual", "R18.3")
+add("C18", "classic right-hand side drawn from the prior metric twice", "nifty/cl/operators/sampling_enabler.py", "                nj = self._likelihood.draw_sample(device_id=device_id)", "                nj = self._prior.draw_sample(device_id=device_id)", "R18.3")
+add("C18", "classic initial gradient with the wrong sign", "nifty/cl/operators/sampling_enabler.py", "_grad=self._likelihood(s) - nj)", "_grad=self._likelihood(s) + nj)", "R18.3")
+add("C18", "classic prior draw not from the inverse", "nifty/cl/operators/sampling_enabler.py", "s = self._prior.draw_sample(from_inverse=True, device_id=device_id)", "s = self._prior.draw_sample(from_inverse=False, device_id=device_id)", "R18.3")
 VARIANTS = V
 
 add("C04", "constants not removed from the position", "nifty/cl/minimization/energy_adapter.py", "            position = position.extract_by_keys(varkeys)\n", "", "R04.1")
@@ -128,6 +154,19 @@ add("C10", "weight indexes the shape vector with the sub-domain index", "nifty/c
 add("C11", "inverse gamma stores alpha instead of alpha+1", OPS + "energy_operators.py", "        self._alphap1 = alpha+1\n", "        self._alphap1 = alpha\n", "R11.6")
 add("C11", "Bernoulli non-event term in the integer dtype", OPS + "energy_operators.py", ".vdot(self._d-1.)", ".vdot(self._d-1)", "R11.7")
 add("C11", "Poisson energy without the sum of the rates", OPS + "energy_operators.py", "        res = x.sum() - x.log().vdot(self._d)", "        res = -x.log().vdot(self._d)", "R11.6")
+add("C19", "JAX KL sums instead of averaging", "nifty/re/optimize_kl.py", "_reduce = partial(tree_map, partial(jnp.mean, axis=0))", "_reduce = partial(tree_map, partial(jnp.sum, axis=0))", "R19.3")
+add("C19", "JAX Hamiltonian prior without the factor 1/2", "nifty/re/optimize_kl.py", "+ 0.5 * vdot(primals, primals)", "+ vdot(primals, primals)", "R19.3")
+add("C19", "JAX KL metric maps the tangents too", "nifty/re/optimize_kl.py", "vmet = map(ham.metric, in_axes=(0, None))", "vmet = map(ham.metric, in_axes=(0, 0))", "R19.3")
+add("C19", "JAX KL evaluated at the bare residuals", "nifty/re/optimize_kl.py", "    s = vvg(primals_samples.at(primals).samples)", "    s = vvg(primals_samples._samples)", "R19.3")
+add("C19", "constant keys: value stripped instead of gradient", "nifty/re/optimize_kl.py", "                remove_axes=(False, insert_axes),", "                remove_axes=(insert_axes, False),", "R19.4")
+add("C19", "constant keys: tangent slot filled with the frozen primals", "nifty/re/optimize_kl.py", "flat_fill=(primals_frozen, zeros_like(primals_frozen)),", "flat_fill=(primals_frozen, primals_frozen),", "R19.4")
+add("C19", "constant keys: minimiser starts from the full position", "nifty/re/optimize_kl.py", "            x0=pl,", "            x0=samples.pos,", "R19.4")
+add("C18", "both white draws use the same sub-key", "nifty/re/evi.py", "    prr_inv_metric_smpl = random_like(key=subkey_prr, primals=p_liquid)", "    prr_inv_metric_smpl = random_like(key=subkey_nll, primals=p_liquid)", "R18.3")
+add("C18", "metric sample without the prior draw", "nifty/re/evi.py", "    smpl = nll_smpl + prr_smpl\n", "    smpl = nll_smpl\n", "R18.3")
+add("C18", "CG metric without the prior identity", "nifty/re/evi.py", "    return lh.metric(p_liquid, tangents, **primals_kw) + tangents\n\n\ndef draw_linear_residual", "    return lh.metric(p_liquid, tangents, **primals_kw)\n\n\ndef draw_linear_residual", "R18.3")
+add("C18", "classic right-hand side drawn from the prior metric twice", "nifty/cl/operators/sampling_enabler.py", "                nj = self._likelihood.draw_sample(device_id=device_id)", "                nj = self._prior.draw_sample(device_id=device_id)", "R18.3")
+add("C18", "classic initial gradient with the wrong sign", "nifty/cl/operators/sampling_enabler.py", "_grad=self._likelihood(s) - nj)", "_grad=self._likelihood(s) + nj)", "R18.3")
+add("C18", "classic prior draw not from the inverse", "nifty/cl/operators/sampling_enabler.py", "s = self._prior.draw_sample(from_inverse=True, device_id=device_id)", "s = self._prior.draw_sample(from_inverse=False, device_id=device_id)", "R18.3")
 VARIANTS = V
 
 # ---- rules added after the seeded rounds 3-5
@@ -176,6 +215,19 @@ add("C10", "weight indexes the shape vector with the sub-domain index", "nifty/c
 add("C11", "inverse gamma stores alpha instead of alpha+1", OPS + "energy_operators.py", "        self._alphap1 = alpha+1\n", "        self._alphap1 = alpha\n", "R11.6")
 add("C11", "Bernoulli non-event term in the integer dtype", OPS + "energy_operators.py", ".vdot(self._d-1.)", ".vdot(self._d-1)", "R11.7")
 add("C11", "Poisson energy without the sum of the rates", OPS + "energy_operators.py", "        res = x.sum() - x.log().vdot(self._d)", "        res = -x.log().vdot(self._d)", "R11.6")
+add("C19", "JAX KL sums instead of averaging", "nifty/re/optimize_kl.py", "_reduce = partial(tree_map, partial(jnp.mean, axis=0))", "_reduce = partial(tree_map, partial(jnp.sum, axis=0))", "R19.3")
+add("C19", "JAX Hamiltonian prior without the factor 1/2", "nifty/re/optimize_kl.py", "+ 0.5 * vdot(primals, primals)", "+ vdot(primals, primals)", "R19.3")
+add("C19", "JAX KL metric maps the tangents too", "nifty/re/optimize_kl.py", "vmet = map(ham.metric, in_axes=(0, None))", "vmet = map(ham.metric, in_axes=(0, 0))", "R19.3")
+add("C19", "JAX KL evaluated at the bare residuals", "nifty/re/optimize_kl.py", "    s = vvg(primals_samples.at(primals).samples)", "    s = vvg(primals_samples._samples)", "R19.3")
+add("C19", "constant keys: value stripped instead of gradient", "nifty/re/optimize_kl.py", "                remove_axes=(False, insert_axes),", "                remove_axes=(insert_axes, False),", "R19.4")
+add("C19", "constant keys: tangent slot filled with the frozen primals", "nifty/re/optimize_kl.py", "flat_fill=(primals_frozen, zeros_like(primals_frozen)),", "flat_fill=(primals_frozen, primals_frozen),", "R19.4")
+add("C19", "constant keys: minimiser starts from the full position", "nifty/re/optimize_kl.py", "            x0=pl,", "            x0=samples.pos,", "R19.4")
+add("C18", "both white draws use the same sub-key", "nifty/re/evi.py", "    prr_inv_metric_smpl = random_like(key=subkey_prr, primals=p_liquid)", "    prr_inv_metric_smpl = random_like(key=subkey_nll, primals=p_liquid)", "R18.3")
+add("C18", "metric sample without the prior draw", "nifty/re/evi.py", "    smpl = nll_smpl + prr_smpl\n", "    smpl = nll_smpl\n", "R18.3")
+add("C18", "CG metric without the prior identity", "nifty/re/evi.py", "    return lh.metric(p_liquid, tangents, **primals_kw) + tangents\n\n\ndef draw_linear_residual", "    return lh.metric(p_liquid, tangents, **primals_kw)\n\n\ndef draw_linear_residual", "R18.3")
+add("C18", "classic right-hand side drawn from the prior metric twice", "nifty/cl/operators/sampling_enabler.py", "                nj = self._likelihood.draw_sample(device_id=device_id)", "                nj = self._prior.draw_sample(device_id=device_id)", "R18.3")
+add("C18", "classic initial gradient with the wrong sign", "nifty/cl/operators/sampling_enabler.py", "_grad=self._likelihood(s) - nj)", "_grad=self._likelihood(s) + nj)", "R18.3")
+add("C18", "classic prior draw not from the inverse", "nifty/cl/operators/sampling_enabler.py", "s = self._prior.draw_sample(from_inverse=True, device_id=device_id)", "s = self._prior.draw_sample(from_inverse=False, device_id=device_id)", "R18.3")
 VARIANTS = V
 
 SDP = "nifty/re/num/stats_distributions.py"
@@ -203,6 +255,19 @@ add("C10", "weight indexes the shape vector with the sub-domain index", "nifty/c
 add("C11", "inverse gamma stores alpha instead of alpha+1", OPS + "energy_operators.py", "        self._alphap1 = alpha+1\n", "        self._alphap1 = alpha\n", "R11.6")
 add("C11", "Bernoulli non-event term in the integer dtype", OPS + "energy_operators.py", ".vdot(self._d-1.)", ".vdot(self._d-1)", "R11.7")
 add("C11", "Poisson energy without the sum of the rates", OPS + "energy_operators.py", "        res = x.sum() - x.log().vdot(self._d)", "        res = -x.log().vdot(self._d)", "R11.6")
+add("C19", "JAX KL sums instead of averaging", "nifty/re/optimize_kl.py", "_reduce = partial(tree_map, partial(jnp.mean, axis=0))", "_reduce = partial(tree_map, partial(jnp.sum, axis=0))", "R19.3")
+add("C19", "JAX Hamiltonian prior without the factor 1/2", "nifty/re/optimize_kl.py", "+ 0.5 * vdot(primals, primals)", "+ vdot(primals, primals)", "R19.3")
+add("C19", "JAX KL metric maps the tangents too", "nifty/re/optimize_kl.py", "vmet = map(ham.metric, in_axes=(0, None))", "vmet = map(ham.metric, in_axes=(0, 0))", "R19.3")
+add("C19", "JAX KL evaluated at the bare residuals", "nifty/re/optimize_kl.py", "    s = vvg(primals_samples.at(primals).samples)", "    s = vvg(primals_samples._samples)", "R19.3")
+add("C19", "constant keys: value stripped instead of gradient", "nifty/re/optimize_kl.py", "                remove_axes=(False, insert_axes),", "                remove_axes=(insert_axes, False),", "R19.4")
+add("C19", "constant keys: tangent slot filled with the frozen primals", "nifty/re/optimize_kl.py", "flat_fill=(primals_frozen, zeros_like(primals_frozen)),", "flat_fill=(primals_frozen, primals_frozen),", "R19.4")
+add("C19", "constant keys: minimiser starts from the full position", "nifty/re/optimize_kl.py", "            x0=pl,", "            x0=samples.pos,", "R19.4")
+add("C18", "both white draws use the same sub-key", "nifty/re/evi.py", "    prr_inv_metric_smpl = random_like(key=subkey_prr, primals=p_liquid)", "    prr_inv_metric_smpl = random_like(key=subkey_nll, primals=p_liquid)", "R18.3")
+add("C18", "metric sample without the prior draw", "nifty/re/evi.py", "    smpl = nll_smpl + prr_smpl\n", "    smpl = nll_smpl\n", "R18.3")
+add("C18", "CG metric without the prior identity", "nifty/re/evi.py", "    return lh.metric(p_liquid, tangents, **primals_kw) + tangents\n\n\ndef draw_linear_residual", "    return lh.metric(p_liquid, tangents, **primals_kw)\n\n\ndef draw_linear_residual", "R18.3")
+add("C18", "classic right-hand side drawn from the prior metric twice", "nifty/cl/operators/sampling_enabler.py", "                nj = self._likelihood.draw_sample(device_id=device_id)", "                nj = self._prior.draw_sample(device_id=device_id)", "R18.3")
+add("C18", "classic initial gradient with the wrong sign", "nifty/cl/operators/sampling_enabler.py", "_grad=self._likelihood(s) - nj)", "_grad=self._likelihood(s) + nj)", "R18.3")
+add("C18", "classic prior draw not from the inverse", "nifty/cl/operators/sampling_enabler.py", "s = self._prior.draw_sample(from_inverse=True, device_id=device_id)", "s = self._prior.draw_sample(from_inverse=False, device_id=device_id)", "R18.3")
 VARIANTS = V
 
 add("C36", "re chi-square divided by size for complex input", "nifty/re/minisanity.py", "    ndof = inp.size if jnp.isrealobj(inp) else 2 * inp.size", "    ndof = inp.size", "R36.1")
@@ -223,6 +288,19 @@ add("C10", "weight indexes the shape vector with the sub-domain index", "nifty/c
 add("C11", "inverse gamma stores alpha instead of alpha+1", OPS + "energy_operators.py", "        self._alphap1 = alpha+1\n", "        self._alphap1 = alpha\n", "R11.6")
 add("C11", "Bernoulli non-event term in the integer dtype", OPS + "energy_operators.py", ".vdot(self._d-1.)", ".vdot(self._d-1)", "R11.7")
 add("C11", "Poisson energy without the sum of the rates", OPS + "energy_operators.py", "        res = x.sum() - x.log().vdot(self._d)", "        res = -x.log().vdot(self._d)", "R11.6")
+add("C19", "JAX KL sums instead of averaging", "nifty/re/optimize_kl.py", "_reduce = partial(tree_map, partial(jnp.mean, axis=0))", "_reduce = partial(tree_map, partial(jnp.sum, axis=0))", "R19.3")
+add("C19", "JAX Hamiltonian prior without the factor 1/2", "nifty/re/optimize_kl.py", "+ 0.5 * vdot(primals, primals)", "+ vdot(primals, primals)", "R19.3")
+add("C19", "JAX KL metric maps the tangents too", "nifty/re/optimize_kl.py", "vmet = map(ham.metric, in_axes=(0, None))", "vmet = map(ham.metric, in_axes=(0, 0))", "R19.3")
+add("C19", "JAX KL evaluated at the bare residuals", "nifty/re/optimize_kl.py", "    s = vvg(primals_samples.at(primals).samples)", "    s = vvg(primals_samples._samples)", "R19.3")
+add("C19", "constant keys: value stripped instead of gradient", "nifty/re/optimize_kl.py", "                remove_axes=(False, insert_axes),", "                remove_axes=(insert_axes, False),", "R19.4")
+add("C19", "constant keys: tangent slot filled with the frozen primals", "nifty/re/optimize_kl.py", "flat_fill=(primals_frozen, zeros_like(primals_frozen)),", "flat_fill=(primals_frozen, primals_frozen),", "R19.4")
+add("C19", "constant keys: minimiser starts from the full position", "nifty/re/optimize_kl.py", "            x0=pl,", "            x0=samples.pos,", "R19.4")
+add("C18", "both white draws use the same sub-key", "nifty/re/evi.py", "    prr_inv_metric_smpl = random_like(key=subkey_prr, primals=p_liquid)", "    prr_inv_metric_smpl = random_like(key=subkey_nll, primals=p_liquid)", "R18.3")
+add("C18", "metric sample without the prior draw", "nifty/re/evi.py", "    smpl = nll_smpl + prr_smpl\n", "    smpl = nll_smpl\n", "R18.3")
+add("C18", "CG metric without the prior identity", "nifty/re/evi.py", "    return lh.metric(p_liquid, tangents, **primals_kw) + tangents\n\n\ndef draw_linear_residual", "    return lh.metric(p_liquid, tangents, **primals_kw)\n\n\ndef draw_linear_residual", "R18.3")
+add("C18", "classic right-hand side drawn from the prior metric twice", "nifty/cl/operators/sampling_enabler.py", "                nj = self._likelihood.draw_sample(device_id=device_id)", "                nj = self._prior.draw_sample(device_id=device_id)", "R18.3")
+add("C18", "classic initial gradient with the wrong sign", "nifty/cl/operators/sampling_enabler.py", "_grad=self._likelihood(s) - nj)", "_grad=self._likelihood(s) + nj)", "R18.3")
+add("C18", "classic prior draw not from the inverse", "nifty/cl/operators/sampling_enabler.py", "s = self._prior.draw_sample(from_inverse=True, device_id=device_id)", "s = self._prior.draw_sample(from_inverse=False, device_id=device_id)", "R18.3")
 VARIANTS = V
 
 GMP = "nifty/re/gauss_markov.py"
@@ -244,6 +322,19 @@ add("C10", "weight indexes the shape vector with the sub-domain index", "nifty/c
 add("C11", "inverse gamma stores alpha instead of alpha+1", OPS + "energy_operators.py", "        self._alphap1 = alpha+1\n", "        self._alphap1 = alpha\n", "R11.6")
 add("C11", "Bernoulli non-event term in the integer dtype", OPS + "energy_operators.py", ".vdot(self._d-1.)", ".vdot(self._d-1)", "R11.7")
 add("C11", "Poisson energy without the sum of the rates", OPS + "energy_operators.py", "        res = x.sum() - x.log().vdot(self._d)", "        res = -x.log().vdot(self._d)", "R11.6")
+add("C19", "JAX KL sums instead of averaging", "nifty/re/optimize_kl.py", "_reduce = partial(tree_map, partial(jnp.mean, axis=0))", "_reduce = partial(tree_map, partial(jnp.sum, axis=0))", "R19.3")
+add("C19", "JAX Hamiltonian prior without the factor 1/2", "nifty/re/optimize_kl.py", "+ 0.5 * vdot(primals, primals)", "+ vdot(primals, primals)", "R19.3")
+add("C19", "JAX KL metric maps the tangents too", "nifty/re/optimize_kl.py", "vmet = map(ham.metric, in_axes=(0, None))", "vmet = map(ham.metric, in_axes=(0, 0))", "R19.3")
+add("C19", "JAX KL evaluated at the bare residuals", "nifty/re/optimize_kl.py", "    s = vvg(primals_samples.at(primals).samples)", "    s = vvg(primals_samples._samples)", "R19.3")
+add("C19", "constant keys: value stripped instead of gradient", "nifty/re/optimize_kl.py", "                remove_axes=(False, insert_axes),", "                remove_axes=(insert_axes, False),", "R19.4")
+add("C19", "constant keys: tangent slot filled with the frozen primals", "nifty/re/optimize_kl.py", "flat_fill=(primals_frozen, zeros_like(primals_frozen)),", "flat_fill=(primals_frozen, primals_frozen),", "R19.4")
+add("C19", "constant keys: minimiser starts from the full position", "nifty/re/optimize_kl.py", "            x0=pl,", "            x0=samples.pos,", "R19.4")
+add("C18", "both white draws use the same sub-key", "nifty/re/evi.py", "    prr_inv_metric_smpl = random_like(key=subkey_prr, primals=p_liquid)", "    prr_inv_metric_smpl = random_like(key=subkey_nll, primals=p_liquid)", "R18.3")
+add("C18", "metric sample without the prior draw", "nifty/re/evi.py", "    smpl = nll_smpl + prr_smpl\n", "    smpl = nll_smpl\n", "R18.3")
+add("C18", "CG metric without the prior identity", "nifty/re/evi.py", "    return lh.metric(p_liquid, tangents, **primals_kw) + tangents\n\n\ndef draw_linear_residual", "    return lh.metric(p_liquid, tangents, **primals_kw)\n\n\ndef draw_linear_residual", "R18.3")
+add("C18", "classic right-hand side drawn from the prior metric twice", "nifty/cl/operators/sampling_enabler.py", "                nj = self._likelihood.draw_sample(device_id=device_id)", "                nj = self._prior.draw_sample(device_id=device_id)", "R18.3")
+add("C18", "classic initial gradient with the wrong sign", "nifty/cl/operators/sampling_enabler.py", "_grad=self._likelihood(s) - nj)", "_grad=self._likelihood(s) + nj)", "R18.3")
+add("C18", "classic prior draw not from the inverse", "nifty/cl/operators/sampling_enabler.py", "s = self._prior.draw_sample(from_inverse=True, device_id=device_id)", "s = self._prior.draw_sample(from_inverse=False, device_id=device_id)", "R18.3")
 VARIANTS = V
 
 add("C35", "mask stores the flags themselves", OPS + "mask_operator.py", "self._flags = np.logical_not(flags.val)", "self._flags = flags.val.astype(bool)", "R35.1")
@@ -266,6 +357,19 @@ add("C10", "weight indexes the shape vector with the sub-domain index", "nifty/c
 add("C11", "inverse gamma stores alpha instead of alpha+1", OPS + "energy_operators.py", "        self._alphap1 = alpha+1\n", "        self._alphap1 = alpha\n", "R11.6")
 add("C11", "Bernoulli non-event term in the integer dtype", OPS + "energy_operators.py", ".vdot(self._d-1.)", ".vdot(self._d-1)", "R11.7")
 add("C11", "Poisson energy without the sum of the rates", OPS + "energy_operators.py", "        res = x.sum() - x.log().vdot(self._d)", "        res = -x.log().vdot(self._d)", "R11.6")
+add("C19", "JAX KL sums instead of averaging", "nifty/re/optimize_kl.py", "_reduce = partial(tree_map, partial(jnp.mean, axis=0))", "_reduce = partial(tree_map, partial(jnp.sum, axis=0))", "R19.3")
+add("C19", "JAX Hamiltonian prior without the factor 1/2", "nifty/re/optimize_kl.py", "+ 0.5 * vdot(primals, primals)", "+ vdot(primals, primals)", "R19.3")
+add("C19", "JAX KL metric maps the tangents too", "nifty/re/optimize_kl.py", "vmet = map(ham.metric, in_axes=(0, None))", "vmet = map(ham.metric, in_axes=(0, 0))", "R19.3")
+add("C19", "JAX KL evaluated at the bare residuals", "nifty/re/optimize_kl.py", "    s = vvg(primals_samples.at(primals).samples)", "    s = vvg(primals_samples._samples)", "R19.3")
+add("C19", "constant keys: value stripped instead of gradient", "nifty/re/optimize_kl.py", "                remove_axes=(False, insert_axes),", "                remove_axes=(insert_axes, False),", "R19.4")
+add("C19", "constant keys: tangent slot filled with the frozen primals", "nifty/re/optimize_kl.py", "flat_fill=(primals_frozen, zeros_like(primals_frozen)),", "flat_fill=(primals_frozen, primals_frozen),", "R19.4")
+add("C19", "constant keys: minimiser starts from the full position", "nifty/re/optimize_kl.py", "            x0=pl,", "            x0=samples.pos,", "R19.4")
+add("C18", "both white draws use the same sub-key", "nifty/re/evi.py", "    prr_inv_metric_smpl = random_like(key=subkey_prr, primals=p_liquid)", "    prr_inv_metric_smpl = random_like(key=subkey_nll, primals=p_liquid)", "R18.3")
+add("C18", "metric sample without the prior draw", "nifty/re/evi.py", "    smpl = nll_smpl + prr_smpl\n", "    smpl = nll_smpl\n", "R18.3")
+add("C18", "CG metric without the prior identity", "nifty/re/evi.py", "    return lh.metric(p_liquid, tangents, **primals_kw) + tangents\n\n\ndef draw_linear_residual", "    return lh.metric(p_liquid, tangents, **primals_kw)\n\n\ndef draw_linear_residual", "R18.3")
+add("C18", "classic right-hand side drawn from the prior metric twice", "nifty/cl/operators/sampling_enabler.py", "                nj = self._likelihood.draw_sample(device_id=device_id)", "                nj = self._prior.draw_sample(device_id=device_id)", "R18.3")
+add("C18", "classic initial gradient with the wrong sign", "nifty/cl/operators/sampling_enabler.py", "_grad=self._likelihood(s) - nj)", "_grad=self._likelihood(s) + nj)", "R18.3")
+add("C18", "classic prior draw not from the inverse", "nifty/cl/operators/sampling_enabler.py", "s = self._prior.draw_sample(from_inverse=True, device_id=device_id)", "s = self._prior.draw_sample(from_inverse=False, device_id=device_id)", "R18.3")
 VARIANTS = V
 
 add("C24", "temporary state file opened exclusively", "nifty/re/optimize_kl.py", '            with open(tmp_fn, "wb") as f:', '            with open(tmp_fn, "xb") as f:', "R24.1")
@@ -281,6 +385,19 @@ add("C10", "weight indexes the shape vector with the sub-domain index", "nifty/c
 add("C11", "inverse gamma stores alpha instead of alpha+1", OPS + "energy_operators.py", "        self._alphap1 = alpha+1\n", "        self._alphap1 = alpha\n", "R11.6")
 add("C11", "Bernoulli non-event term in the integer dtype", OPS + "energy_operators.py", ".vdot(self._d-1.)", ".vdot(self._d-1)", "R11.7")
 add("C11", "Poisson energy without the sum of the rates", OPS + "energy_operators.py", "        res = x.sum() - x.log().vdot(self._d)", "        res = -x.log().vdot(self._d)", "R11.6")
+add("C19", "JAX KL sums instead of averaging", "nifty/re/optimize_kl.py", "_reduce = partial(tree_map, partial(jnp.mean, axis=0))", "_reduce = partial(tree_map, partial(jnp.sum, axis=0))", "R19.3")
+add("C19", "JAX Hamiltonian prior without the factor 1/2", "nifty/re/optimize_kl.py", "+ 0.5 * vdot(primals, primals)", "+ vdot(primals, primals)", "R19.3")
+add("C19", "JAX KL metric maps the tangents too", "nifty/re/optimize_kl.py", "vmet = map(ham.metric, in_axes=(0, None))", "vmet = map(ham.metric, in_axes=(0, 0))", "R19.3")
+add("C19", "JAX KL evaluated at the bare residuals", "nifty/re/optimize_kl.py", "    s = vvg(primals_samples.at(primals).samples)", "    s = vvg(primals_samples._samples)", "R19.3")
+add("C19", "constant keys: value stripped instead of gradient", "nifty/re/optimize_kl.py", "                remove_axes=(False, insert_axes),", "                remove_axes=(insert_axes, False),", "R19.4")
+add("C19", "constant keys: tangent slot filled with the frozen primals", "nifty/re/optimize_kl.py", "flat_fill=(primals_frozen, zeros_like(primals_frozen)),", "flat_fill=(primals_frozen, primals_frozen),", "R19.4")
+add("C19", "constant keys: minimiser starts from the full position", "nifty/re/optimize_kl.py", "            x0=pl,", "            x0=samples.pos,", "R19.4")
+add("C18", "both white draws use the same sub-key", "nifty/re/evi.py", "    prr_inv_metric_smpl = random_like(key=subkey_prr, primals=p_liquid)", "    prr_inv_metric_smpl = random_like(key=subkey_nll, primals=p_liquid)", "R18.3")
+add("C18", "metric sample without the prior draw", "nifty/re/evi.py", "    smpl = nll_smpl + prr_smpl\n", "    smpl = nll_smpl\n", "R18.3")
+add("C18", "CG metric without the prior identity", "nifty/re/evi.py", "    return lh.metric(p_liquid, tangents, **primals_kw) + tangents\n\n\ndef draw_linear_residual", "    return lh.metric(p_liquid, tangents, **primals_kw)\n\n\ndef draw_linear_residual", "R18.3")
+add("C18", "classic right-hand side drawn from the prior metric twice", "nifty/cl/operators/sampling_enabler.py", "                nj = self._likelihood.draw_sample(device_id=device_id)", "                nj = self._prior.draw_sample(device_id=device_id)", "R18.3")
+add("C18", "classic initial gradient with the wrong sign", "nifty/cl/operators/sampling_enabler.py", "_grad=self._likelihood(s) - nj)", "_grad=self._likelihood(s) + nj)", "R18.3")
+add("C18", "classic prior draw not from the inverse", "nifty/cl/operators/sampling_enabler.py", "s = self._prior.draw_sample(from_inverse=True, device_id=device_id)", "s = self._prior.draw_sample(from_inverse=False, device_id=device_id)", "R18.3")
 VARIANTS = V
 
 add("C23", "bcast master is rank zero", "nifty/cl/utilities.py", "    master = comm.Get_rank() == root", "    master = comm.Get_rank() == 0", "R23.6")
@@ -297,6 +414,19 @@ add("C10", "weight indexes the shape vector with the sub-domain index", "nifty/c
 add("C11", "inverse gamma stores alpha instead of alpha+1", OPS + "energy_operators.py", "        self._alphap1 = alpha+1\n", "        self._alphap1 = alpha\n", "R11.6")
 add("C11", "Bernoulli non-event term in the integer dtype", OPS + "energy_operators.py", ".vdot(self._d-1.)", ".vdot(self._d-1)", "R11.7")
 add("C11", "Poisson energy without the sum of the rates", OPS + "energy_operators.py", "        res = x.sum() - x.log().vdot(self._d)", "        res = -x.log().vdot(self._d)", "R11.6")
+add("C19", "JAX KL sums instead of averaging", "nifty/re/optimize_kl.py", "_reduce = partial(tree_map, partial(jnp.mean, axis=0))", "_reduce = partial(tree_map, partial(jnp.sum, axis=0))", "R19.3")
+add("C19", "JAX Hamiltonian prior without the factor 1/2", "nifty/re/optimize_kl.py", "+ 0.5 * vdot(primals, primals)", "+ vdot(primals, primals)", "R19.3")
+add("C19", "JAX KL metric maps the tangents too", "nifty/re/optimize_kl.py", "vmet = map(ham.metric, in_axes=(0, None))", "vmet = map(ham.metric, in_axes=(0, 0))", "R19.3")
+add("C19", "JAX KL evaluated at the bare residuals", "nifty/re/optimize_kl.py", "    s = vvg(primals_samples.at(primals).samples)", "    s = vvg(primals_samples._samples)", "R19.3")
+add("C19", "constant keys: value stripped instead of gradient", "nifty/re/optimize_kl.py", "                remove_axes=(False, insert_axes),", "                remove_axes=(insert_axes, False),", "R19.4")
+add("C19", "constant keys: tangent slot filled with the frozen primals", "nifty/re/optimize_kl.py", "flat_fill=(primals_frozen, zeros_like(primals_frozen)),", "flat_fill=(primals_frozen, primals_frozen),", "R19.4")
+add("C19", "constant keys: minimiser starts from the full position", "nifty/re/optimize_kl.py", "            x0=pl,", "            x0=samples.pos,", "R19.4")
+add("C18", "both white draws use the same sub-key", "nifty/re/evi.py", "    prr_inv_metric_smpl = random_like(key=subkey_prr, primals=p_liquid)", "    prr_inv_metric_smpl = random_like(key=subkey_nll, primals=p_liquid)", "R18.3")
+add("C18", "metric sample without the prior draw", "nifty/re/evi.py", "    smpl = nll_smpl + prr_smpl\n", "    smpl = nll_smpl\n", "R18.3")
+add("C18", "CG metric without the prior identity", "nifty/re/evi.py", "    return lh.metric(p_liquid, tangents, **primals_kw) + tangents\n\n\ndef draw_linear_residual", "    return lh.metric(p_liquid, tangents, **primals_kw)\n\n\ndef draw_linear_residual", "R18.3")
+add("C18", "classic right-hand side drawn from the prior metric twice", "nifty/cl/operators/sampling_enabler.py", "                nj = self._likelihood.draw_sample(device_id=device_id)", "                nj = self._prior.draw_sample(device_id=device_id)", "R18.3")
+add("C18", "classic initial gradient with the wrong sign", "nifty/cl/operators/sampling_enabler.py", "_grad=self._likelihood(s) - nj)", "_grad=self._likelihood(s) + nj)", "R18.3")
+add("C18", "classic prior draw not from the inverse", "nifty/cl/operators/sampling_enabler.py", "s = self._prior.draw_sample(from_inverse=True, device_id=device_id)", "s = self._prior.draw_sample(from_inverse=False, device_id=device_id)", "R18.3")
 VARIANTS = V
 
 add("C07", "distributor reuses its output buffer", OPS + "distributors.py", "        oarr = np.empty_like(arr, shape=self._pshape, dtype=x.dtype)\n        oarr[()] = arr[(slice(None), self._dofdex, slice(None))]",
@@ -312,6 +442,19 @@ add("C10", "weight indexes the shape vector with the sub-domain index", "nifty/c
 add("C11", "inverse gamma stores alpha instead of alpha+1", OPS + "energy_operators.py", "        self._alphap1 = alpha+1\n", "        self._alphap1 = alpha\n", "R11.6")
 add("C11", "Bernoulli non-event term in the integer dtype", OPS + "energy_operators.py", ".vdot(self._d-1.)", ".vdot(self._d-1)", "R11.7")
 add("C11", "Poisson energy without the sum of the rates", OPS + "energy_operators.py", "        res = x.sum() - x.log().vdot(self._d)", "        res = -x.log().vdot(self._d)", "R11.6")
+add("C19", "JAX KL sums instead of averaging", "nifty/re/optimize_kl.py", "_reduce = partial(tree_map, partial(jnp.mean, axis=0))", "_reduce = partial(tree_map, partial(jnp.sum, axis=0))", "R19.3")
+add("C19", "JAX Hamiltonian prior without the factor 1/2", "nifty/re/optimize_kl.py", "+ 0.5 * vdot(primals, primals)", "+ vdot(primals, primals)", "R19.3")
+add("C19", "JAX KL metric maps the tangents too", "nifty/re/optimize_kl.py", "vmet = map(ham.metric, in_axes=(0, None))", "vmet = map(ham.metric, in_axes=(0, 0))", "R19.3")
+add("C19", "JAX KL evaluated at the bare residuals", "nifty/re/optimize_kl.py", "    s = vvg(primals_samples.at(primals).samples)", "    s = vvg(primals_samples._samples)", "R19.3")
+add("C19", "constant keys: value stripped instead of gradient", "nifty/re/optimize_kl.py", "                remove_axes=(False, insert_axes),", "                remove_axes=(insert_axes, False),", "R19.4")
+add("C19", "constant keys: tangent slot filled with the frozen primals", "nifty/re/optimize_kl.py", "flat_fill=(primals_frozen, zeros_like(primals_frozen)),", "flat_fill=(primals_frozen, primals_frozen),", "R19.4")
+add("C19", "constant keys: minimiser starts from the full position", "nifty/re/optimize_kl.py", "            x0=pl,", "            x0=samples.pos,", "R19.4")
+add("C18", "both white draws use the same sub-key", "nifty/re/evi.py", "    prr_inv_metric_smpl = random_like(key=subkey_prr, primals=p_liquid)", "    prr_inv_metric_smpl = random_like(key=subkey_nll, primals=p_liquid)", "R18.3")
+add("C18", "metric sample without the prior draw", "nifty/re/evi.py", "    smpl = nll_smpl + prr_smpl\n", "    smpl = nll_smpl\n", "R18.3")
+add("C18", "CG metric without the prior identity", "nifty/re/evi.py", "    return lh.metric(p_liquid, tangents, **primals_kw) + tangents\n\n\ndef draw_linear_residual", "    return lh.metric(p_liquid, tangents, **primals_kw)\n\n\ndef draw_linear_residual", "R18.3")
+add("C18", "classic right-hand side drawn from the prior metric twice", "nifty/cl/operators/sampling_enabler.py", "                nj = self._likelihood.draw_sample(device_id=device_id)", "                nj = self._prior.draw_sample(device_id=device_id)", "R18.3")
+add("C18", "classic initial gradient with the wrong sign", "nifty/cl/operators/sampling_enabler.py", "_grad=self._likelihood(s) - nj)", "_grad=self._likelihood(s) + nj)", "R18.3")
+add("C18", "classic prior draw not from the inverse", "nifty/cl/operators/sampling_enabler.py", "s = self._prior.draw_sample(from_inverse=True, device_id=device_id)", "s = self._prior.draw_sample(from_inverse=False, device_id=device_id)", "R18.3")
 VARIANTS = V
 
 add("C21", "repeated iteration aliases the previous seed sequence", "nifty/cl/minimization/optimize_kl.py", "            sseqs[iglobal] = sseq_dup", "            sseqs[iglobal] = sseqs[iglobal-1]", "R21.7")
@@ -326,6 +469,19 @@ add("C10", "weight indexes the shape vector with the sub-domain index", "nifty/c
 add("C11", "inverse gamma stores alpha instead of alpha+1", OPS + "energy_operators.py", "        self._alphap1 = alpha+1\n", "        self._alphap1 = alpha\n", "R11.6")
 add("C11", "Bernoulli non-event term in the integer dtype", OPS + "energy_operators.py", ".vdot(self._d-1.)", ".vdot(self._d-1)", "R11.7")
 add("C11", "Poisson energy without the sum of the rates", OPS + "energy_operators.py", "        res = x.sum() - x.log().vdot(self._d)", "        res = -x.log().vdot(self._d)", "R11.6")
+add("C19", "JAX KL sums instead of averaging", "nifty/re/optimize_kl.py", "_reduce = partial(tree_map, partial(jnp.mean, axis=0))", "_reduce = partial(tree_map, partial(jnp.sum, axis=0))", "R19.3")
+add("C19", "JAX Hamiltonian prior without the factor 1/2", "nifty/re/optimize_kl.py", "+ 0.5 * vdot(primals, primals)", "+ vdot(primals, primals)", "R19.3")
+add("C19", "JAX KL metric maps the tangents too", "nifty/re/optimize_kl.py", "vmet = map(ham.metric, in_axes=(0, None))", "vmet = map(ham.metric, in_axes=(0, 0))", "R19.3")
+add("C19", "JAX KL evaluated at the bare residuals", "nifty/re/optimize_kl.py", "    s = vvg(primals_samples.at(primals).samples)", "    s = vvg(primals_samples._samples)", "R19.3")
+add("C19", "constant keys: value stripped instead of gradient", "nifty/re/optimize_kl.py", "                remove_axes=(False, insert_axes),", "                remove_axes=(insert_axes, False),", "R19.4")
+add("C19", "constant keys: tangent slot filled with the frozen primals", "nifty/re/optimize_kl.py", "flat_fill=(primals_frozen, zeros_like(primals_frozen)),", "flat_fill=(primals_frozen, primals_frozen),", "R19.4")
+add("C19", "constant keys: minimiser starts from the full position", "nifty/re/optimize_kl.py", "            x0=pl,", "            x0=samples.pos,", "R19.4")
+add("C18", "both white draws use the same sub-key", "nifty/re/evi.py", "    prr_inv_metric_smpl = random_like(key=subkey_prr, primals=p_liquid)", "    prr_inv_metric_smpl = random_like(key=subkey_nll, primals=p_liquid)", "R18.3")
+add("C18", "metric sample without the prior draw", "nifty/re/evi.py", "    smpl = nll_smpl + prr_smpl\n", "    smpl = nll_smpl\n", "R18.3")
+add("C18", "CG metric without the prior identity", "nifty/re/evi.py", "    return lh.metric(p_liquid, tangents, **primals_kw) + tangents\n\n\ndef draw_linear_residual", "    return lh.metric(p_liquid, tangents, **primals_kw)\n\n\ndef draw_linear_residual", "R18.3")
+add("C18", "classic right-hand side drawn from the prior metric twice", "nifty/cl/operators/sampling_enabler.py", "                nj = self._likelihood.draw_sample(device_id=device_id)", "                nj = self._prior.draw_sample(device_id=device_id)", "R18.3")
+add("C18", "classic initial gradient with the wrong sign", "nifty/cl/operators/sampling_enabler.py", "_grad=self._likelihood(s) - nj)", "_grad=self._likelihood(s) + nj)", "R18.3")
+add("C18", "classic prior draw not from the inverse", "nifty/cl/operators/sampling_enabler.py", "s = self._prior.draw_sample(from_inverse=True, device_id=device_id)", "s = self._prior.draw_sample(from_inverse=False, device_id=device_id)", "R18.3")
 VARIANTS = V
 
 GRP = "nifty/re/multi_grid/grid.py"
@@ -347,6 +503,19 @@ add("C10", "weight indexes the shape vector with the sub-domain index", "nifty/c
 add("C11", "inverse gamma stores alpha instead of alpha+1", OPS + "energy_operators.py", "        self._alphap1 = alpha+1\n", "        self._alphap1 = alpha\n", "R11.6")
 add("C11", "Bernoulli non-event term in the integer dtype", OPS + "energy_operators.py", ".vdot(self._d-1.)", ".vdot(self._d-1)", "R11.7")
 add("C11", "Poisson energy without the sum of the rates", OPS + "energy_operators.py", "        res = x.sum() - x.log().vdot(self._d)", "        res = -x.log().vdot(self._d)", "R11.6")
+add("C19", "JAX KL sums instead of averaging", "nifty/re/optimize_kl.py", "_reduce = partial(tree_map, partial(jnp.mean, axis=0))", "_reduce = partial(tree_map, partial(jnp.sum, axis=0))", "R19.3")
+add("C19", "JAX Hamiltonian prior without the factor 1/2", "nifty/re/optimize_kl.py", "+ 0.5 * vdot(primals, primals)", "+ vdot(primals, primals)", "R19.3")
+add("C19", "JAX KL metric maps the tangents too", "nifty/re/optimize_kl.py", "vmet = map(ham.metric, in_axes=(0, None))", "vmet = map(ham.metric, in_axes=(0, 0))", "R19.3")
+add("C19", "JAX KL evaluated at the bare residuals", "nifty/re/optimize_kl.py", "    s = vvg(primals_samples.at(primals).samples)", "    s = vvg(primals_samples._samples)", "R19.3")
+add("C19", "constant keys: value stripped instead of gradient", "nifty/re/optimize_kl.py", "                remove_axes=(False, insert_axes),", "                remove_axes=(insert_axes, False),", "R19.4")
+add("C19", "constant keys: tangent slot filled with the frozen primals", "nifty/re/optimize_kl.py", "flat_fill=(primals_frozen, zeros_like(primals_frozen)),", "flat_fill=(primals_frozen, primals_frozen),", "R19.4")
+add("C19", "constant keys: minimiser starts from the full position", "nifty/re/optimize_kl.py", "            x0=pl,", "            x0=samples.pos,", "R19.4")
+add("C18", "both white draws use the same sub-key", "nifty/re/evi.py", "    prr_inv_metric_smpl = random_like(key=subkey_prr, primals=p_liquid)", "    prr_inv_metric_smpl = random_like(key=subkey_nll, primals=p_liquid)", "R18.3")
+add("C18", "metric sample without the prior draw", "nifty/re/evi.py", "    smpl = nll_smpl + prr_smpl\n", "    smpl = nll_smpl\n", "R18.3")
+add("C18", "CG metric without the prior identity", "nifty/re/evi.py", "    return lh.metric(p_liquid, tangents, **primals_kw) + tangents\n\n\ndef draw_linear_residual", "    return lh.metric(p_liquid, tangents, **primals_kw)\n\n\ndef draw_linear_residual", "R18.3")
+add("C18", "classic right-hand side drawn from the prior metric twice", "nifty/cl/operators/sampling_enabler.py", "                nj = self._likelihood.draw_sample(device_id=device_id)", "                nj = self._prior.draw_sample(device_id=device_id)", "R18.3")
+add("C18", "classic initial gradient with the wrong sign", "nifty/cl/operators/sampling_enabler.py", "_grad=self._likelihood(s) - nj)", "_grad=self._likelihood(s) + nj)", "R18.3")
+add("C18", "classic prior draw not from the inverse", "nifty/cl/operators/sampling_enabler.py", "s = self._prior.draw_sample(from_inverse=True, device_id=device_id)", "s = self._prior.draw_sample(from_inverse=False, device_id=device_id)", "R18.3")
 VARIANTS = V
 
 LZP = "nifty/re/num/lanczos.py"
@@ -372,6 +541,19 @@ add("C10", "weight indexes the shape vector with the sub-domain index", "nifty/c
 add("C11", "inverse gamma stores alpha instead of alpha+1", OPS + "energy_operators.py", "        self._alphap1 = alpha+1\n", "        self._alphap1 = alpha\n", "R11.6")
 add("C11", "Bernoulli non-event term in the integer dtype", OPS + "energy_operators.py", ".vdot(self._d-1.)", ".vdot(self._d-1)", "R11.7")
 add("C11", "Poisson energy without the sum of the rates", OPS + "energy_operators.py", "        res = x.sum() - x.log().vdot(self._d)", "        res = -x.log().vdot(self._d)", "R11.6")
+add("C19", "JAX KL sums instead of averaging", "nifty/re/optimize_kl.py", "_reduce = partial(tree_map, partial(jnp.mean, axis=0))", "_reduce = partial(tree_map, partial(jnp.sum, axis=0))", "R19.3")
+add("C19", "JAX Hamiltonian prior without the factor 1/2", "nifty/re/optimize_kl.py", "+ 0.5 * vdot(primals, primals)", "+ vdot(primals, primals)", "R19.3")
+add("C19", "JAX KL metric maps the tangents too", "nifty/re/optimize_kl.py", "vmet = map(ham.metric, in_axes=(0, None))", "vmet = map(ham.metric, in_axes=(0, 0))", "R19.3")
+add("C19", "JAX KL evaluated at the bare residuals", "nifty/re/optimize_kl.py", "    s = vvg(primals_samples.at(primals).samples)", "    s = vvg(primals_samples._samples)", "R19.3")
+add("C19", "constant keys: value stripped instead of gradient", "nifty/re/optimize_kl.py", "                remove_axes=(False, insert_axes),", "                remove_axes=(insert_axes, False),", "R19.4")
+add("C19", "constant keys: tangent slot filled with the frozen primals", "nifty/re/optimize_kl.py", "flat_fill=(primals_frozen, zeros_like(primals_frozen)),", "flat_fill=(primals_frozen, primals_frozen),", "R19.4")
+add("C19", "constant keys: minimiser starts from the full position", "nifty/re/optimize_kl.py", "            x0=pl,", "            x0=samples.pos,", "R19.4")
+add("C18", "both white draws use the same sub-key", "nifty/re/evi.py", "    prr_inv_metric_smpl = random_like(key=subkey_prr, primals=p_liquid)", "    prr_inv_metric_smpl = random_like(key=subkey_nll, primals=p_liquid)", "R18.3")
+add("C18", "metric sample without the prior draw", "nifty/re/evi.py", "    smpl = nll_smpl + prr_smpl\n", "    smpl = nll_smpl\n", "R18.3")
+add("C18", "CG metric without the prior identity", "nifty/re/evi.py", "    return lh.metric(p_liquid, tangents, **primals_kw) + tangents\n\n\ndef draw_linear_residual", "    return lh.metric(p_liquid, tangents, **primals_kw)\n\n\ndef draw_linear_residual", "R18.3")
+add("C18", "classic right-hand side drawn from the prior metric twice", "nifty/cl/operators/sampling_enabler.py", "                nj = self._likelihood.draw_sample(device_id=device_id)", "                nj = self._prior.draw_sample(device_id=device_id)", "R18.3")
+add("C18", "classic initial gradient with the wrong sign", "nifty/cl/operators/sampling_enabler.py", "_grad=self._likelihood(s) - nj)", "_grad=self._likelihood(s) + nj)", "R18.3")
+add("C18", "classic prior draw not from the inverse", "nifty/cl/operators/sampling_enabler.py", "s = self._prior.draw_sample(from_inverse=True, device_id=device_id)", "s = self._prior.draw_sample(from_inverse=False, device_id=device_id)", "R18.3")
 VARIANTS = V
 
 add("C20", "wiener filter dereferences the None default", "nifty/re/evi.py", "    draw_linear_kwargs = {} if draw_linear_kwargs is None else draw_linear_kwargs\n", "", "R20.2")
@@ -390,6 +572,19 @@ add("C10", "weight indexes the shape vector with the sub-domain index", "nifty/c
 add("C11", "inverse gamma stores alpha instead of alpha+1", OPS + "energy_operators.py", "        self._alphap1 = alpha+1\n", "        self._alphap1 = alpha\n", "R11.6")
 add("C11", "Bernoulli non-event term in the integer dtype", OPS + "energy_operators.py", ".vdot(self._d-1.)", ".vdot(self._d-1)", "R11.7")
 add("C11", "Poisson energy without the sum of the rates", OPS + "energy_operators.py", "        res = x.sum() - x.log().vdot(self._d)", "        res = -x.log().vdot(self._d)", "R11.6")
+add("C19", "JAX KL sums instead of averaging", "nifty/re/optimize_kl.py", "_reduce = partial(tree_map, partial(jnp.mean, axis=0))", "_reduce = partial(tree_map, partial(jnp.sum, axis=0))", "R19.3")
+add("C19", "JAX Hamiltonian prior without the factor 1/2", "nifty/re/optimize_kl.py", "+ 0.5 * vdot(primals, primals)", "+ vdot(primals, primals)", "R19.3")
+add("C19", "JAX KL metric maps the tangents too", "nifty/re/optimize_kl.py", "vmet = map(ham.metric, in_axes=(0, None))", "vmet = map(ham.metric, in_axes=(0, 0))", "R19.3")
+add("C19", "JAX KL evaluated at the bare residuals", "nifty/re/optimize_kl.py", "    s = vvg(primals_samples.at(primals).samples)", "    s = vvg(primals_samples._samples)", "R19.3")
+add("C19", "constant keys: value stripped instead of gradient", "nifty/re/optimize_kl.py", "                remove_axes=(False, insert_axes),", "                remove_axes=(insert_axes, False),", "R19.4")
+add("C19", "constant keys: tangent slot filled with the frozen primals", "nifty/re/optimize_kl.py", "flat_fill=(primals_frozen, zeros_like(primals_frozen)),", "flat_fill=(primals_frozen, primals_frozen),", "R19.4")
+add("C19", "constant keys: minimiser starts from the full position", "nifty/re/optimize_kl.py", "            x0=pl,", "            x0=samples.pos,", "R19.4")
+add("C18", "both white draws use the same sub-key", "nifty/re/evi.py", "    prr_inv_metric_smpl = random_like(key=subkey_prr, primals=p_liquid)", "    prr_inv_metric_smpl = random_like(key=subkey_nll, primals=p_liquid)", "R18.3")
+add("C18", "metric sample without the prior draw", "nifty/re/evi.py", "    smpl = nll_smpl + prr_smpl\n", "    smpl = nll_smpl\n", "R18.3")
+add("C18", "CG metric without the prior identity", "nifty/re/evi.py", "    return lh.metric(p_liquid, tangents, **primals_kw) + tangents\n\n\ndef draw_linear_residual", "    return lh.metric(p_liquid, tangents, **primals_kw)\n\n\ndef draw_linear_residual", "R18.3")
+add("C18", "classic right-hand side drawn from the prior metric twice", "nifty/cl/operators/sampling_enabler.py", "                nj = self._likelihood.draw_sample(device_id=device_id)", "                nj = self._prior.draw_sample(device_id=device_id)", "R18.3")
+add("C18", "classic initial gradient with the wrong sign", "nifty/cl/operators/sampling_enabler.py", "_grad=self._likelihood(s) - nj)", "_grad=self._likelihood(s) + nj)", "R18.3")
+add("C18", "classic prior draw not from the inverse", "nifty/cl/operators/sampling_enabler.py", "s = self._prior.draw_sample(from_inverse=True, device_id=device_id)", "s = self._prior.draw_sample(from_inverse=False, device_id=device_id)", "R18.3")
 VARIANTS = V
 
 add("C27", "sample list save refuses to overwrite under save_strategy all", "nifty/cl/minimization/optimize_kl.py", "                    overwrite=True)\n\n            if _MPI_master(comm(iglobal)):", "                    overwrite=save_strategy == 'latest')\n\n            if _MPI_master(comm(iglobal)):", "R27.8")
@@ -404,6 +599,19 @@ add("C10", "weight indexes the shape vector with the sub-domain index", "nifty/c
 add("C11", "inverse gamma stores alpha instead of alpha+1", OPS + "energy_operators.py", "        self._alphap1 = alpha+1\n", "        self._alphap1 = alpha\n", "R11.6")
 add("C11", "Bernoulli non-event term in the integer dtype", OPS + "energy_operators.py", ".vdot(self._d-1.)", ".vdot(self._d-1)", "R11.7")
 add("C11", "Poisson energy without the sum of the rates", OPS + "energy_operators.py", "        res = x.sum() - x.log().vdot(self._d)", "        res = -x.log().vdot(self._d)", "R11.6")
+add("C19", "JAX KL sums instead of averaging", "nifty/re/optimize_kl.py", "_reduce = partial(tree_map, partial(jnp.mean, axis=0))", "_reduce = partial(tree_map, partial(jnp.sum, axis=0))", "R19.3")
+add("C19", "JAX Hamiltonian prior without the factor 1/2", "nifty/re/optimize_kl.py", "+ 0.5 * vdot(primals, primals)", "+ vdot(primals, primals)", "R19.3")
+add("C19", "JAX KL metric maps the tangents too", "nifty/re/optimize_kl.py", "vmet = map(ham.metric, in_axes=(0, None))", "vmet = map(ham.metric, in_axes=(0, 0))", "R19.3")
+add("C19", "JAX KL evaluated at the bare residuals", "nifty/re/optimize_kl.py", "    s = vvg(primals_samples.at(primals).samples)", "    s = vvg(primals_samples._samples)", "R19.3")
+add("C19", "constant keys: value stripped instead of gradient", "nifty/re/optimize_kl.py", "                remove_axes=(False, insert_axes),", "                remove_axes=(insert_axes, False),", "R19.4")
+add("C19", "constant keys: tangent slot filled with the frozen primals", "nifty/re/optimize_kl.py", "flat_fill=(primals_frozen, zeros_like(primals_frozen)),", "flat_fill=(primals_frozen, primals_frozen),", "R19.4")
+add("C19", "constant keys: minimiser starts from the full position", "nifty/re/optimize_kl.py", "            x0=pl,", "            x0=samples.pos,", "R19.4")
+add("C18", "both white draws use the same sub-key", "nifty/re/evi.py", "    prr_inv_metric_smpl = random_like(key=subkey_prr, primals=p_liquid)", "    prr_inv_metric_smpl = random_like(key=subkey_nll, primals=p_liquid)", "R18.3")
+add("C18", "metric sample without the prior draw", "nifty/re/evi.py", "    smpl = nll_smpl + prr_smpl\n", "    smpl = nll_smpl\n", "R18.3")
+add("C18", "CG metric without the prior identity", "nifty/re/evi.py", "    return lh.metric(p_liquid, tangents, **primals_kw) + tangents\n\n\ndef draw_linear_residual", "    return lh.metric(p_liquid, tangents, **primals_kw)\n\n\ndef draw_linear_residual", "R18.3")
+add("C18", "classic right-hand side drawn from the prior metric twice", "nifty/cl/operators/sampling_enabler.py", "                nj = self._likelihood.draw_sample(device_id=device_id)", "                nj = self._prior.draw_sample(device_id=device_id)", "R18.3")
+add("C18", "classic initial gradient with the wrong sign", "nifty/cl/operators/sampling_enabler.py", "_grad=self._likelihood(s) - nj)", "_grad=self._likelihood(s) + nj)", "R18.3")
+add("C18", "classic prior draw not from the inverse", "nifty/cl/operators/sampling_enabler.py", "s = self._prior.draw_sample(from_inverse=True, device_id=device_id)", "s = self._prior.draw_sample(from_inverse=False, device_id=device_id)", "R18.3")
 VARIANTS = V
 
 add("C21", "seed preparation starts at the resume index", "nifty/cl/minimization/optimize_kl.py", "    for iglobal in range(total_iterations):\n        if not fresh_stochasticity(iglobal):", "    for iglobal in range(initial_index, total_iterations):\n        if not fresh_stochasticity(iglobal):", "R21.9")
@@ -417,6 +625,19 @@ add("C10", "weight indexes the shape vector with the sub-domain index", "nifty/c
 add("C11", "inverse gamma stores alpha instead of alpha+1", OPS + "energy_operators.py", "        self._alphap1 = alpha+1\n", "        self._alphap1 = alpha\n", "R11.6")
 add("C11", "Bernoulli non-event term in the integer dtype", OPS + "energy_operators.py", ".vdot(self._d-1.)", ".vdot(self._d-1)", "R11.7")
 add("C11", "Poisson energy without the sum of the rates", OPS + "energy_operators.py", "        res = x.sum() - x.log().vdot(self._d)", "        res = -x.log().vdot(self._d)", "R11.6")
+add("C19", "JAX KL sums instead of averaging", "nifty/re/optimize_kl.py", "_reduce = partial(tree_map, partial(jnp.mean, axis=0))", "_reduce = partial(tree_map, partial(jnp.sum, axis=0))", "R19.3")
+add("C19", "JAX Hamiltonian prior without the factor 1/2", "nifty/re/optimize_kl.py", "+ 0.5 * vdot(primals, primals)", "+ vdot(primals, primals)", "R19.3")
+add("C19", "JAX KL metric maps the tangents too", "nifty/re/optimize_kl.py", "vmet = map(ham.metric, in_axes=(0, None))", "vmet = map(ham.metric, in_axes=(0, 0))", "R19.3")
+add("C19", "JAX KL evaluated at the bare residuals", "nifty/re/optimize_kl.py", "    s = vvg(primals_samples.at(primals).samples)", "    s = vvg(primals_samples._samples)", "R19.3")
+add("C19", "constant keys: value stripped instead of gradient", "nifty/re/optimize_kl.py", "                remove_axes=(False, insert_axes),", "                remove_axes=(insert_axes, False),", "R19.4")
+add("C19", "constant keys: tangent slot filled with the frozen primals", "nifty/re/optimize_kl.py", "flat_fill=(primals_frozen, zeros_like(primals_frozen)),", "flat_fill=(primals_frozen, primals_frozen),", "R19.4")
+add("C19", "constant keys: minimiser starts from the full position", "nifty/re/optimize_kl.py", "            x0=pl,", "            x0=samples.pos,", "R19.4")
+add("C18", "both white draws use the same sub-key", "nifty/re/evi.py", "    prr_inv_metric_smpl = random_like(key=subkey_prr, primals=p_liquid)", "    prr_inv_metric_smpl = random_like(key=subkey_nll, primals=p_liquid)", "R18.3")
+add("C18", "metric sample without the prior draw", "nifty/re/evi.py", "    smpl = nll_smpl + prr_smpl\n", "    smpl = nll_smpl\n", "R18.3")
+add("C18", "CG metric without the prior identity", "nifty/re/evi.py", "    return lh.metric(p_liquid, tangents, **primals_kw) + tangents\n\n\ndef draw_linear_residual", "    return lh.metric(p_liquid, tangents, **primals_kw)\n\n\ndef draw_linear_residual", "R18.3")
+add("C18", "classic right-hand side drawn from the prior metric twice", "nifty/cl/operators/sampling_enabler.py", "                nj = self._likelihood.draw_sample(device_id=device_id)", "                nj = self._prior.draw_sample(device_id=device_id)", "R18.3")
+add("C18", "classic initial gradient with the wrong sign", "nifty/cl/operators/sampling_enabler.py", "_grad=self._likelihood(s) - nj)", "_grad=self._likelihood(s) + nj)", "R18.3")
+add("C18", "classic prior draw not from the inverse", "nifty/cl/operators/sampling_enabler.py", "s = self._prior.draw_sample(from_inverse=True, device_id=device_id)", "s = self._prior.draw_sample(from_inverse=False, device_id=device_id)", "R18.3")
 VARIANTS = V
 
 add("C23", "bcast sends the array as it is", "nifty/cl/utilities.py", "        data = (np.ascontiguousarray(obj).reshape(shape) if master\n                else np.empty(shape, dtype))", "        data = obj if master else np.empty(shape, dtype)", "R23.7")
@@ -429,6 +650,19 @@ add("C10", "weight indexes the shape vector with the sub-domain index", "nifty/c
 add("C11", "inverse gamma stores alpha instead of alpha+1", OPS + "energy_operators.py", "        self._alphap1 = alpha+1\n", "        self._alphap1 = alpha\n", "R11.6")
 add("C11", "Bernoulli non-event term in the integer dtype", OPS + "energy_operators.py", ".vdot(self._d-1.)", ".vdot(self._d-1)", "R11.7")
 add("C11", "Poisson energy without the sum of the rates", OPS + "energy_operators.py", "        res = x.sum() - x.log().vdot(self._d)", "        res = -x.log().vdot(self._d)", "R11.6")
+add("C19", "JAX KL sums instead of averaging", "nifty/re/optimize_kl.py", "_reduce = partial(tree_map, partial(jnp.mean, axis=0))", "_reduce = partial(tree_map, partial(jnp.sum, axis=0))", "R19.3")
+add("C19", "JAX Hamiltonian prior without the factor 1/2", "nifty/re/optimize_kl.py", "+ 0.5 * vdot(primals, primals)", "+ vdot(primals, primals)", "R19.3")
+add("C19", "JAX KL metric maps the tangents too", "nifty/re/optimize_kl.py", "vmet = map(ham.metric, in_axes=(0, None))", "vmet = map(ham.metric, in_axes=(0, 0))", "R19.3")
+add("C19", "JAX KL evaluated at the bare residuals", "nifty/re/optimize_kl.py", "    s = vvg(primals_samples.at(primals).samples)", "    s = vvg(primals_samples._samples)", "R19.3")
+add("C19", "constant keys: value stripped instead of gradient", "nifty/re/optimize_kl.py", "                remove_axes=(False, insert_axes),", "                remove_axes=(insert_axes, False),", "R19.4")
+add("C19", "constant keys: tangent slot filled with the frozen primals", "nifty/re/optimize_kl.py", "flat_fill=(primals_frozen, zeros_like(primals_frozen)),", "flat_fill=(primals_frozen, primals_frozen),", "R19.4")
+add("C19", "constant keys: minimiser starts from the full position", "nifty/re/optimize_kl.py", "            x0=pl,", "            x0=samples.pos,", "R19.4")
+add("C18", "both white draws use the same sub-key", "nifty/re/evi.py", "    prr_inv_metric_smpl = random_like(key=subkey_prr, primals=p_liquid)", "    prr_inv_metric_smpl = random_like(key=subkey_nll, primals=p_liquid)", "R18.3")
+add("C18", "metric sample without the prior draw", "nifty/re/evi.py", "    smpl = nll_smpl + prr_smpl\n", "    smpl = nll_smpl\n", "R18.3")
+add("C18", "CG metric without the prior identity", "nifty/re/evi.py", "    return lh.metric(p_liquid, tangents, **primals_kw) + tangents\n\n\ndef draw_linear_residual", "    return lh.metric(p_liquid, tangents, **primals_kw)\n\n\ndef draw_linear_residual", "R18.3")
+add("C18", "classic right-hand side drawn from the prior metric twice", "nifty/cl/operators/sampling_enabler.py", "                nj = self._likelihood.draw_sample(device_id=device_id)", "                nj = self._prior.draw_sample(device_id=device_id)", "R18.3")
+add("C18", "classic initial gradient with the wrong sign", "nifty/cl/operators/sampling_enabler.py", "_grad=self._likelihood(s) - nj)", "_grad=self._likelihood(s) + nj)", "R18.3")
+add("C18", "classic prior draw not from the inverse", "nifty/cl/operators/sampling_enabler.py", "s = self._prior.draw_sample(from_inverse=True, device_id=device_id)", "s = self._prior.draw_sample(from_inverse=False, device_id=device_id)", "R18.3")
 VARIANTS = V
 
 add("C14", "controller keeps its convergence counter between runs", "nifty/cl/minimization/iteration_controllers.py",
@@ -452,6 +686,19 @@ add("C10", "weight indexes the shape vector with the sub-domain index", "nifty/c
 add("C11", "inverse gamma stores alpha instead of alpha+1", OPS + "energy_operators.py", "        self._alphap1 = alpha+1\n", "        self._alphap1 = alpha\n", "R11.6")
 add("C11", "Bernoulli non-event term in the integer dtype", OPS + "energy_operators.py", ".vdot(self._d-1.)", ".vdot(self._d-1)", "R11.7")
 add("C11", "Poisson energy without the sum of the rates", OPS + "energy_operators.py", "        res = x.sum() - x.log().vdot(self._d)", "        res = -x.log().vdot(self._d)", "R11.6")
+add("C19", "JAX KL sums instead of averaging", "nifty/re/optimize_kl.py", "_reduce = partial(tree_map, partial(jnp.mean, axis=0))", "_reduce = partial(tree_map, partial(jnp.sum, axis=0))", "R19.3")
+add("C19", "JAX Hamiltonian prior without the factor 1/2", "nifty/re/optimize_kl.py", "+ 0.5 * vdot(primals, primals)", "+ vdot(primals, primals)", "R19.3")
+add("C19", "JAX KL metric maps the tangents too", "nifty/re/optimize_kl.py", "vmet = map(ham.metric, in_axes=(0, None))", "vmet = map(ham.metric, in_axes=(0, 0))", "R19.3")
+add("C19", "JAX KL evaluated at the bare residuals", "nifty/re/optimize_kl.py", "    s = vvg(primals_samples.at(primals).samples)", "    s = vvg(primals_samples._samples)", "R19.3")
+add("C19", "constant keys: value stripped instead of gradient", "nifty/re/optimize_kl.py", "                remove_axes=(False, insert_axes),", "                remove_axes=(insert_axes, False),", "R19.4")
+add("C19", "constant keys: tangent slot filled with the frozen primals", "nifty/re/optimize_kl.py", "flat_fill=(primals_frozen, zeros_like(primals_frozen)),", "flat_fill=(primals_frozen, primals_frozen),", "R19.4")
+add("C19", "constant keys: minimiser starts from the full position", "nifty/re/optimize_kl.py", "            x0=pl,", "            x0=samples.pos,", "R19.4")
+add("C18", "both white draws use the same sub-key", "nifty/re/evi.py", "    prr_inv_metric_smpl = random_like(key=subkey_prr, primals=p_liquid)", "    prr_inv_metric_smpl = random_like(key=subkey_nll, primals=p_liquid)", "R18.3")
+add("C18", "metric sample without the prior draw", "nifty/re/evi.py", "    smpl = nll_smpl + prr_smpl\n", "    smpl = nll_smpl\n", "R18.3")
+add("C18", "CG metric without the prior identity", "nifty/re/evi.py", "    return lh.metric(p_liquid, tangents, **primals_kw) + tangents\n\n\ndef draw_linear_residual", "    return lh.metric(p_liquid, tangents, **primals_kw)\n\n\ndef draw_linear_residual", "R18.3")
+add("C18", "classic right-hand side drawn from the prior metric twice", "nifty/cl/operators/sampling_enabler.py", "                nj = self._likelihood.draw_sample(device_id=device_id)", "                nj = self._prior.draw_sample(device_id=device_id)", "R18.3")
+add("C18", "classic initial gradient with the wrong sign", "nifty/cl/operators/sampling_enabler.py", "_grad=self._likelihood(s) - nj)", "_grad=self._likelihood(s) + nj)", "R18.3")
+add("C18", "classic prior draw not from the inverse", "nifty/cl/operators/sampling_enabler.py", "s = self._prior.draw_sample(from_inverse=True, device_id=device_id)", "s = self._prior.draw_sample(from_inverse=False, device_id=device_id)", "R18.3")
 VARIANTS = V
 
 add("C02", "nested sum signs combined with or", OPS + "sum_operator.py", "                if ng:\n                    negnew += [not n for n in op._neg]\n                else:\n                    negnew += list(op._neg)",
@@ -476,6 +723,19 @@ add("C10", "weight indexes the shape vector with the sub-domain index", "nifty/c
 add("C11", "inverse gamma stores alpha instead of alpha+1", OPS + "energy_operators.py", "        self._alphap1 = alpha+1\n", "        self._alphap1 = alpha\n", "R11.6")
 add("C11", "Bernoulli non-event term in the integer dtype", OPS + "energy_operators.py", ".vdot(self._d-1.)", ".vdot(self._d-1)", "R11.7")
 add("C11", "Poisson energy without the sum of the rates", OPS + "energy_operators.py", "        res = x.sum() - x.log().vdot(self._d)", "        res = -x.log().vdot(self._d)", "R11.6")
+add("C19", "JAX KL sums instead of averaging", "nifty/re/optimize_kl.py", "_reduce = partial(tree_map, partial(jnp.mean, axis=0))", "_reduce = partial(tree_map, partial(jnp.sum, axis=0))", "R19.3")
+add("C19", "JAX Hamiltonian prior without the factor 1/2", "nifty/re/optimize_kl.py", "+ 0.5 * vdot(primals, primals)", "+ vdot(primals, primals)", "R19.3")
+add("C19", "JAX KL metric maps the tangents too", "nifty/re/optimize_kl.py", "vmet = map(ham.metric, in_axes=(0, None))", "vmet = map(ham.metric, in_axes=(0, 0))", "R19.3")
+add("C19", "JAX KL evaluated at the bare residuals", "nifty/re/optimize_kl.py", "    s = vvg(primals_samples.at(primals).samples)", "    s = vvg(primals_samples._samples)", "R19.3")
+add("C19", "constant keys: value stripped instead of gradient", "nifty/re/optimize_kl.py", "                remove_axes=(False, insert_axes),", "                remove_axes=(insert_axes, False),", "R19.4")
+add("C19", "constant keys: tangent slot filled with the frozen primals", "nifty/re/optimize_kl.py", "flat_fill=(primals_frozen, zeros_like(primals_frozen)),", "flat_fill=(primals_frozen, primals_frozen),", "R19.4")
+add("C19", "constant keys: minimiser starts from the full position", "nifty/re/optimize_kl.py", "            x0=pl,", "            x0=samples.pos,", "R19.4")
+add("C18", "both white draws use the same sub-key", "nifty/re/evi.py", "    prr_inv_metric_smpl = random_like(key=subkey_prr, primals=p_liquid)", "    prr_inv_metric_smpl = random_like(key=subkey_nll, primals=p_liquid)", "R18.3")
+add("C18", "metric sample without the prior draw", "nifty/re/evi.py", "    smpl = nll_smpl + prr_smpl\n", "    smpl = nll_smpl\n", "R18.3")
+add("C18", "CG metric without the prior identity", "nifty/re/evi.py", "    return lh.metric(p_liquid, tangents, **primals_kw) + tangents\n\n\ndef draw_linear_residual", "    return lh.metric(p_liquid, tangents, **primals_kw)\n\n\ndef draw_linear_residual", "R18.3")
+add("C18", "classic right-hand side drawn from the prior metric twice", "nifty/cl/operators/sampling_enabler.py", "                nj = self._likelihood.draw_sample(device_id=device_id)", "                nj = self._prior.draw_sample(device_id=device_id)", "R18.3")
+add("C18", "classic initial gradient with the wrong sign", "nifty/cl/operators/sampling_enabler.py", "_grad=self._likelihood(s) - nj)", "_grad=self._likelihood(s) + nj)", "R18.3")
+add("C18", "classic prior draw not from the inverse", "nifty/cl/operators/sampling_enabler.py", "s = self._prior.draw_sample(from_inverse=True, device_id=device_id)", "s = self._prior.draw_sample(from_inverse=False, device_id=device_id)", "R18.3")
 VARIANTS = V
 
 LIP = "nifty/re/likelihood_impl.py"
@@ -493,6 +753,19 @@ add("C10", "weight indexes the shape vector with the sub-domain index", "nifty/c
 add("C11", "inverse gamma stores alpha instead of alpha+1", OPS + "energy_operators.py", "        self._alphap1 = alpha+1\n", "        self._alphap1 = alpha\n", "R11.6")
 add("C11", "Bernoulli non-event term in the integer dtype", OPS + "energy_operators.py", ".vdot(self._d-1.)", ".vdot(self._d-1)", "R11.7")
 add("C11", "Poisson energy without the sum of the rates", OPS + "energy_operators.py", "        res = x.sum() - x.log().vdot(self._d)", "        res = -x.log().vdot(self._d)", "R11.6")
+add("C19", "JAX KL sums instead of averaging", "nifty/re/optimize_kl.py", "_reduce = partial(tree_map, partial(jnp.mean, axis=0))", "_reduce = partial(tree_map, partial(jnp.sum, axis=0))", "R19.3")
+add("C19", "JAX Hamiltonian prior without the factor 1/2", "nifty/re/optimize_kl.py", "+ 0.5 * vdot(primals, primals)", "+ vdot(primals, primals)", "R19.3")
+add("C19", "JAX KL metric maps the tangents too", "nifty/re/optimize_kl.py", "vmet = map(ham.metric, in_axes=(0, None))", "vmet = map(ham.metric, in_axes=(0, 0))", "R19.3")
+add("C19", "JAX KL evaluated at the bare residuals", "nifty/re/optimize_kl.py", "    s = vvg(primals_samples.at(primals).samples)", "    s = vvg(primals_samples._samples)", "R19.3")
+add("C19", "constant keys: value stripped instead of gradient", "nifty/re/optimize_kl.py", "                remove_axes=(False, insert_axes),", "                remove_axes=(insert_axes, False),", "R19.4")
+add("C19", "constant keys: tangent slot filled with the frozen primals", "nifty/re/optimize_kl.py", "flat_fill=(primals_frozen, zeros_like(primals_frozen)),", "flat_fill=(primals_frozen, primals_frozen),", "R19.4")
+add("C19", "constant keys: minimiser starts from the full position", "nifty/re/optimize_kl.py", "            x0=pl,", "            x0=samples.pos,", "R19.4")
+add("C18", "both white draws use the same sub-key", "nifty/re/evi.py", "    prr_inv_metric_smpl = random_like(key=subkey_prr, primals=p_liquid)", "    prr_inv_metric_smpl = random_like(key=subkey_nll, primals=p_liquid)", "R18.3")
+add("C18", "metric sample without the prior draw", "nifty/re/evi.py", "    smpl = nll_smpl + prr_smpl\n", "    smpl = nll_smpl\n", "R18.3")
+add("C18", "CG metric without the prior identity", "nifty/re/evi.py", "    return lh.metric(p_liquid, tangents, **primals_kw) + tangents\n\n\ndef draw_linear_residual", "    return lh.metric(p_liquid, tangents, **primals_kw)\n\n\ndef draw_linear_residual", "R18.3")
+add("C18", "classic right-hand side drawn from the prior metric twice", "nifty/cl/operators/sampling_enabler.py", "                nj = self._likelihood.draw_sample(device_id=device_id)", "                nj = self._prior.draw_sample(device_id=device_id)", "R18.3")
+add("C18", "classic initial gradient with the wrong sign", "nifty/cl/operators/sampling_enabler.py", "_grad=self._likelihood(s) - nj)", "_grad=self._likelihood(s) + nj)", "R18.3")
+add("C18", "classic prior draw not from the inverse", "nifty/cl/operators/sampling_enabler.py", "s = self._prior.draw_sample(from_inverse=True, device_id=device_id)", "s = self._prior.draw_sample(from_inverse=False, device_id=device_id)", "R18.3")
 VARIANTS = V
 
 add("C16", "sy cache written symmetrically", "nifty/cl/minimization/descent_minimizers.py", "            self.sy[kmi, k1] = self.s[kmi].s_vdot(self.y[k1])", "            self.sy[kmi, k1] = self.sy[k1, kmi] = self.s[kmi].s_vdot(self.y[k1])", "R16.3")
@@ -505,6 +778,19 @@ add("C10", "weight indexes the shape vector with the sub-domain index", "nifty/c
 add("C11", "inverse gamma stores alpha instead of alpha+1", OPS + "energy_operators.py", "        self._alphap1 = alpha+1\n", "        self._alphap1 = alpha\n", "R11.6")
 add("C11", "Bernoulli non-event term in the integer dtype", OPS + "energy_operators.py", ".vdot(self._d-1.)", ".vdot(self._d-1)", "R11.7")
 add("C11", "Poisson energy without the sum of the rates", OPS + "energy_operators.py", "        res = x.sum() - x.log().vdot(self._d)", "        res = -x.log().vdot(self._d)", "R11.6")
+add("C19", "JAX KL sums instead of averaging", "nifty/re/optimize_kl.py", "_reduce = partial(tree_map, partial(jnp.mean, axis=0))", "_reduce = partial(tree_map, partial(jnp.sum, axis=0))", "R19.3")
+add("C19", "JAX Hamiltonian prior without the factor 1/2", "nifty/re/optimize_kl.py", "+ 0.5 * vdot(primals, primals)", "+ vdot(primals, primals)", "R19.3")
+add("C19", "JAX KL metric maps the tangents too", "nifty/re/optimize_kl.py", "vmet = map(ham.metric, in_axes=(0, None))", "vmet = map(ham.metric, in_axes=(0, 0))", "R19.3")
+add("C19", "JAX KL evaluated at the bare residuals", "nifty/re/optimize_kl.py", "    s = vvg(primals_samples.at(primals).samples)", "    s = vvg(primals_samples._samples)", "R19.3")
+add("C19", "constant keys: value stripped instead of gradient", "nifty/re/optimize_kl.py", "                remove_axes=(False, insert_axes),", "                remove_axes=(insert_axes, False),", "R19.4")
+add("C19", "constant keys: tangent slot filled with the frozen primals", "nifty/re/optimize_kl.py", "flat_fill=(primals_frozen, zeros_like(primals_frozen)),", "flat_fill=(primals_frozen, primals_frozen),", "R19.4")
+add("C19", "constant keys: minimiser starts from the full position", "nifty/re/optimize_kl.py", "            x0=pl,", "            x0=samples.pos,", "R19.4")
+add("C18", "both white draws use the same sub-key", "nifty/re/evi.py", "    prr_inv_metric_smpl = random_like(key=subkey_prr, primals=p_liquid)", "    prr_inv_metric_smpl = random_like(key=subkey_nll, primals=p_liquid)", "R18.3")
+add("C18", "metric sample without the prior draw", "nifty/re/evi.py", "    smpl = nll_smpl + prr_smpl\n", "    smpl = nll_smpl\n", "R18.3")
+add("C18", "CG metric without the prior identity", "nifty/re/evi.py", "    return lh.metric(p_liquid, tangents, **primals_kw) + tangents\n\n\ndef draw_linear_residual", "    return lh.metric(p_liquid, tangents, **primals_kw)\n\n\ndef draw_linear_residual", "R18.3")
+add("C18", "classic right-hand side drawn from the prior metric twice", "nifty/cl/operators/sampling_enabler.py", "                nj = self._likelihood.draw_sample(device_id=device_id)", "                nj = self._prior.draw_sample(device_id=device_id)", "R18.3")
+add("C18", "classic initial gradient with the wrong sign", "nifty/cl/operators/sampling_enabler.py", "_grad=self._likelihood(s) - nj)", "_grad=self._likelihood(s) + nj)", "R18.3")
+add("C18", "classic prior draw not from the inverse", "nifty/cl/operators/sampling_enabler.py", "s = self._prior.draw_sample(from_inverse=True, device_id=device_id)", "s = self._prior.draw_sample(from_inverse=False, device_id=device_id)", "R18.3")
 VARIANTS = V
 
 add("C29", "generic generator applies the transposed amplitude", GMP, "    in_ax = (None if len(diffamp.shape) == 2 else 0, 0)\n    res = vmap(jnp.matmul, in_ax, 0)(diffamp, xi)\n",
@@ -521,6 +807,19 @@ add("C10", "weight indexes the shape vector with the sub-domain index", "nifty/c
 add("C11", "inverse gamma stores alpha instead of alpha+1", OPS + "energy_operators.py", "        self._alphap1 = alpha+1\n", "        self._alphap1 = alpha\n", "R11.6")
 add("C11", "Bernoulli non-event term in the integer dtype", OPS + "energy_operators.py", ".vdot(self._d-1.)", ".vdot(self._d-1)", "R11.7")
 add("C11", "Poisson energy without the sum of the rates", OPS + "energy_operators.py", "        res = x.sum() - x.log().vdot(self._d)", "        res = -x.log().vdot(self._d)", "R11.6")
+add("C19", "JAX KL sums instead of averaging", "nifty/re/optimize_kl.py", "_reduce = partial(tree_map, partial(jnp.mean, axis=0))", "_reduce = partial(tree_map, partial(jnp.sum, axis=0))", "R19.3")
+add("C19", "JAX Hamiltonian prior without the factor 1/2", "nifty/re/optimize_kl.py", "+ 0.5 * vdot(primals, primals)", "+ vdot(primals, primals)", "R19.3")
+add("C19", "JAX KL metric maps the tangents too", "nifty/re/optimize_kl.py", "vmet = map(ham.metric, in_axes=(0, None))", "vmet = map(ham.metric, in_axes=(0, 0))", "R19.3")
+add("C19", "JAX KL evaluated at the bare residuals", "nifty/re/optimize_kl.py", "    s = vvg(primals_samples.at(primals).samples)", "    s = vvg(primals_samples._samples)", "R19.3")
+add("C19", "constant keys: value stripped instead of gradient", "nifty/re/optimize_kl.py", "                remove_axes=(False, insert_axes),", "                remove_axes=(insert_axes, False),", "R19.4")
+add("C19", "constant keys: tangent slot filled with the frozen primals", "nifty/re/optimize_kl.py", "flat_fill=(primals_frozen, zeros_like(primals_frozen)),", "flat_fill=(primals_frozen, primals_frozen),", "R19.4")
+add("C19", "constant keys: minimiser starts from the full position", "nifty/re/optimize_kl.py", "            x0=pl,", "            x0=samples.pos,", "R19.4")
+add("C18", "both white draws use the same sub-key", "nifty/re/evi.py", "    prr_inv_metric_smpl = random_like(key=subkey_prr, primals=p_liquid)", "    prr_inv_metric_smpl = random_like(key=subkey_nll, primals=p_liquid)", "R18.3")
+add("C18", "metric sample without the prior draw", "nifty/re/evi.py", "    smpl = nll_smpl + prr_smpl\n", "    smpl = nll_smpl\n", "R18.3")
+add("C18", "CG metric without the prior identity", "nifty/re/evi.py", "    return lh.metric(p_liquid, tangents, **primals_kw) + tangents\n\n\ndef draw_linear_residual", "    return lh.metric(p_liquid, tangents, **primals_kw)\n\n\ndef draw_linear_residual", "R18.3")
+add("C18", "classic right-hand side drawn from the prior metric twice", "nifty/cl/operators/sampling_enabler.py", "                nj = self._likelihood.draw_sample(device_id=device_id)", "                nj = self._prior.draw_sample(device_id=device_id)", "R18.3")
+add("C18", "classic initial gradient with the wrong sign", "nifty/cl/operators/sampling_enabler.py", "_grad=self._likelihood(s) - nj)", "_grad=self._likelihood(s) + nj)", "R18.3")
+add("C18", "classic prior draw not from the inverse", "nifty/cl/operators/sampling_enabler.py", "s = self._prior.draw_sample(from_inverse=True, device_id=device_id)", "s = self._prior.draw_sample(from_inverse=False, device_id=device_id)", "R18.3")
 VARIANTS = V
 
 add("C35", "LOS stride uses the wrong extent", "nifty/cl/library/los_response.py", "        inc[i] = inc[i+1]*shp[i+1]", "        inc[i] = inc[i+1]*shp[i]", "R35.5")
@@ -535,6 +834,19 @@ add("C10", "weight indexes the shape vector with the sub-domain index", "nifty/c
 add("C11", "inverse gamma stores alpha instead of alpha+1", OPS + "energy_operators.py", "        self._alphap1 = alpha+1\n", "        self._alphap1 = alpha\n", "R11.6")
 add("C11", "Bernoulli non-event term in the integer dtype", OPS + "energy_operators.py", ".vdot(self._d-1.)", ".vdot(self._d-1)", "R11.7")
 add("C11", "Poisson energy without the sum of the rates", OPS + "energy_operators.py", "        res = x.sum() - x.log().vdot(self._d)", "        res = -x.log().vdot(self._d)", "R11.6")
+add("C19", "JAX KL sums instead of averaging", "nifty/re/optimize_kl.py", "_reduce = partial(tree_map, partial(jnp.mean, axis=0))", "_reduce = partial(tree_map, partial(jnp.sum, axis=0))", "R19.3")
+add("C19", "JAX Hamiltonian prior without the factor 1/2", "nifty/re/optimize_kl.py", "+ 0.5 * vdot(primals, primals)", "+ vdot(primals, primals)", "R19.3")
+add("C19", "JAX KL metric maps the tangents too", "nifty/re/optimize_kl.py", "vmet = map(ham.metric, in_axes=(0, None))", "vmet = map(ham.metric, in_axes=(0, 0))", "R19.3")
+add("C19", "JAX KL evaluated at the bare residuals", "nifty/re/optimize_kl.py", "    s = vvg(primals_samples.at(primals).samples)", "    s = vvg(primals_samples._samples)", "R19.3")
+add("C19", "constant keys: value stripped instead of gradient", "nifty/re/optimize_kl.py", "                remove_axes=(False, insert_axes),", "                remove_axes=(insert_axes, False),", "R19.4")
+add("C19", "constant keys: tangent slot filled with the frozen primals", "nifty/re/optimize_kl.py", "flat_fill=(primals_frozen, zeros_like(primals_frozen)),", "flat_fill=(primals_frozen, primals_frozen),", "R19.4")
+add("C19", "constant keys: minimiser starts from the full position", "nifty/re/optimize_kl.py", "            x0=pl,", "            x0=samples.pos,", "R19.4")
+add("C18", "both white draws use the same sub-key", "nifty/re/evi.py", "    prr_inv_metric_smpl = random_like(key=subkey_prr, primals=p_liquid)", "    prr_inv_metric_smpl = random_like(key=subkey_nll, primals=p_liquid)", "R18.3")
+add("C18", "metric sample without the prior draw", "nifty/re/evi.py", "    smpl = nll_smpl + prr_smpl\n", "    smpl = nll_smpl\n", "R18.3")
+add("C18", "CG metric without the prior identity", "nifty/re/evi.py", "    return lh.metric(p_liquid, tangents, **primals_kw) + tangents\n\n\ndef draw_linear_residual", "    return lh.metric(p_liquid, tangents, **primals_kw)\n\n\ndef draw_linear_residual", "R18.3")
+add("C18", "classic right-hand side drawn from the prior metric twice", "nifty/cl/operators/sampling_enabler.py", "                nj = self._likelihood.draw_sample(device_id=device_id)", "                nj = self._prior.draw_sample(device_id=device_id)", "R18.3")
+add("C18", "classic initial gradient with the wrong sign", "nifty/cl/operators/sampling_enabler.py", "_grad=self._likelihood(s) - nj)", "_grad=self._likelihood(s) + nj)", "R18.3")
+add("C18", "classic prior draw not from the inverse", "nifty/cl/operators/sampling_enabler.py", "s = self._prior.draw_sample(from_inverse=True, device_id=device_id)", "s = self._prior.draw_sample(from_inverse=False, device_id=device_id)", "R18.3")
 VARIANTS = V
 
 add("C28", "matern power kind without the square root", "nifty/re/correlated_field.py", '        if self.kind.lower() == "power":\n            spectrum = jnp.sqrt(spectrum)\n', "", "R28.2")
@@ -552,6 +864,19 @@ add("C10", "weight indexes the shape vector with the sub-domain index", "nifty/c
 add("C11", "inverse gamma stores alpha instead of alpha+1", OPS + "energy_operators.py", "        self._alphap1 = alpha+1\n", "        self._alphap1 = alpha\n", "R11.6")
 add("C11", "Bernoulli non-event term in the integer dtype", OPS + "energy_operators.py", ".vdot(self._d-1.)", ".vdot(self._d-1)", "R11.7")
 add("C11", "Poisson energy without the sum of the rates", OPS + "energy_operators.py", "        res = x.sum() - x.log().vdot(self._d)", "        res = -x.log().vdot(self._d)", "R11.6")
+add("C19", "JAX KL sums instead of averaging", "nifty/re/optimize_kl.py", "_reduce = partial(tree_map, partial(jnp.mean, axis=0))", "_reduce = partial(tree_map, partial(jnp.sum, axis=0))", "R19.3")
+add("C19", "JAX Hamiltonian prior without the factor 1/2", "nifty/re/optimize_kl.py", "+ 0.5 * vdot(primals, primals)", "+ vdot(primals, primals)", "R19.3")
+add("C19", "JAX KL metric maps the tangents too", "nifty/re/optimize_kl.py", "vmet = map(ham.metric, in_axes=(0, None))", "vmet = map(ham.metric, in_axes=(0, 0))", "R19.3")
+add("C19", "JAX KL evaluated at the bare residuals", "nifty/re/optimize_kl.py", "    s = vvg(primals_samples.at(primals).samples)", "    s = vvg(primals_samples._samples)", "R19.3")
+add("C19", "constant keys: value stripped instead of gradient", "nifty/re/optimize_kl.py", "                remove_axes=(False, insert_axes),", "                remove_axes=(insert_axes, False),", "R19.4")
+add("C19", "constant keys: tangent slot filled with the frozen primals", "nifty/re/optimize_kl.py", "flat_fill=(primals_frozen, zeros_like(primals_frozen)),", "flat_fill=(primals_frozen, primals_frozen),", "R19.4")
+add("C19", "constant keys: minimiser starts from the full position", "nifty/re/optimize_kl.py", "            x0=pl,", "            x0=samples.pos,", "R19.4")
+add("C18", "both white draws use the same sub-key", "nifty/re/evi.py", "    prr_inv_metric_smpl = random_like(key=subkey_prr, primals=p_liquid)", "    prr_inv_metric_smpl = random_like(key=subkey_nll, primals=p_liquid)", "R18.3")
+add("C18", "metric sample without the prior draw", "nifty/re/evi.py", "    smpl = nll_smpl + prr_smpl\n", "    smpl = nll_smpl\n", "R18.3")
+add("C18", "CG metric without the prior identity", "nifty/re/evi.py", "    return lh.metric(p_liquid, tangents, **primals_kw) + tangents\n\n\ndef draw_linear_residual", "    return lh.metric(p_liquid, tangents, **primals_kw)\n\n\ndef draw_linear_residual", "R18.3")
+add("C18", "classic right-hand side drawn from the prior metric twice", "nifty/cl/operators/sampling_enabler.py", "                nj = self._likelihood.draw_sample(device_id=device_id)", "                nj = self._prior.draw_sample(device_id=device_id)", "R18.3")
+add("C18", "classic initial gradient with the wrong sign", "nifty/cl/operators/sampling_enabler.py", "_grad=self._likelihood(s) - nj)", "_grad=self._likelihood(s) + nj)", "R18.3")
+add("C18", "classic prior draw not from the inverse", "nifty/cl/operators/sampling_enabler.py", "s = self._prior.draw_sample(from_inverse=True, device_id=device_id)", "s = self._prior.draw_sample(from_inverse=False, device_id=device_id)", "R18.3")
 VARIANTS = V
 
 add("C31", "scaled open grid coord2index without padding extent", "nifty/re/multi_grid/grid_impl.py", "        coord = coord / ((self.shape + 2 * self.shifts) * self.distances)[bc]", "        coord = coord / (self.shape * self.distances)[bc]", "R31.4")
@@ -570,4 +895,17 @@ add("C10", "weight indexes the shape vector with the sub-domain index", "nifty/c
 add("C11", "inverse gamma stores alpha instead of alpha+1", OPS + "energy_operators.py", "        self._alphap1 = alpha+1\n", "        self._alphap1 = alpha\n", "R11.6")
 add("C11", "Bernoulli non-event term in the integer dtype", OPS + "energy_operators.py", ".vdot(self._d-1.)", ".vdot(self._d-1)", "R11.7")
 add("C11", "Poisson energy without the sum of the rates", OPS + "energy_operators.py", "        res = x.sum() - x.log().vdot(self._d)", "        res = -x.log().vdot(self._d)", "R11.6")
+add("C19", "JAX KL sums instead of averaging", "nifty/re/optimize_kl.py", "_reduce = partial(tree_map, partial(jnp.mean, axis=0))", "_reduce = partial(tree_map, partial(jnp.sum, axis=0))", "R19.3")
+add("C19", "JAX Hamiltonian prior without the factor 1/2", "nifty/re/optimize_kl.py", "+ 0.5 * vdot(primals, primals)", "+ vdot(primals, primals)", "R19.3")
+add("C19", "JAX KL metric maps the tangents too", "nifty/re/optimize_kl.py", "vmet = map(ham.metric, in_axes=(0, None))", "vmet = map(ham.metric, in_axes=(0, 0))", "R19.3")
+add("C19", "JAX KL evaluated at the bare residuals", "nifty/re/optimize_kl.py", "    s = vvg(primals_samples.at(primals).samples)", "    s = vvg(primals_samples._samples)", "R19.3")
+add("C19", "constant keys: value stripped instead of gradient", "nifty/re/optimize_kl.py", "                remove_axes=(False, insert_axes),", "                remove_axes=(insert_axes, False),", "R19.4")
+add("C19", "constant keys: tangent slot filled with the frozen primals", "nifty/re/optimize_kl.py", "flat_fill=(primals_frozen, zeros_like(primals_frozen)),", "flat_fill=(primals_frozen, primals_frozen),", "R19.4")
+add("C19", "constant keys: minimiser starts from the full position", "nifty/re/optimize_kl.py", "            x0=pl,", "            x0=samples.pos,", "R19.4")
+add("C18", "both white draws use the same sub-key", "nifty/re/evi.py", "    prr_inv_metric_smpl = random_like(key=subkey_prr, primals=p_liquid)", "    prr_inv_metric_smpl = random_like(key=subkey_nll, primals=p_liquid)", "R18.3")
+add("C18", "metric sample without the prior draw", "nifty/re/evi.py", "    smpl = nll_smpl + prr_smpl\n", "    smpl = nll_smpl\n", "R18.3")
+add("C18", "CG metric without the prior identity", "nifty/re/evi.py", "    return lh.metric(p_liquid, tangents, **primals_kw) + tangents\n\n\ndef draw_linear_residual", "    return lh.metric(p_liquid, tangents, **primals_kw)\n\n\ndef draw_linear_residual", "R18.3")
+add("C18", "classic right-hand side drawn from the prior metric twice", "nifty/cl/operators/sampling_enabler.py", "                nj = self._likelihood.draw_sample(device_id=device_id)", "                nj = self._prior.draw_sample(device_id=device_id)", "R18.3")
+add("C18", "classic initial gradient with the wrong sign", "nifty/cl/operators/sampling_enabler.py", "_grad=self._likelihood(s) - nj)", "_grad=self._likelihood(s) + nj)", "R18.3")
+add("C18", "classic prior draw not from the inverse", "nifty/cl/operators/sampling_enabler.py", "s = self._prior.draw_sample(from_inverse=True, device_id=device_id)", "s = self._prior.draw_sample(from_inverse=False, device_id=device_id)", "R18.3")
 VARIANTS = V
